@@ -237,6 +237,11 @@ func runC13(args []string) error {
 	n := cf.n
 	per := max(2, n/40)
 
+	// 0. every VM limit at limit-1, limit, limit+1 (deterministic)
+	for _, b := range c13Boundaries() {
+		c13Run(co, "boundary", b.tag, c13Input{Script: hx(b.script), Base: b.base, Limit: b.limit})
+	}
+
 	// 1. arithmetic / bitwise / comparison, per instruction
 	unary := []opcode.Opcode{opcode.SIGN, opcode.ABS, opcode.NEGATE, opcode.INC, opcode.DEC, opcode.INVERT, opcode.SQRT, opcode.NOT, opcode.NZ}
 	for _, op := range unary {
